@@ -54,6 +54,10 @@ class Ctx:
         self.assumptions = []
         self.notes = []
         self.distinct = set()
+        self.round = 0           # thorough tier: the check body runs several rounds with derived seeds
+        self.base_seed = seed
+        self._mc_done = {}       # exhaustive model-checking runs are not repeated in later rounds
+        self._acc = {}           # numeric coverage summed over rounds
 
     # ------------------------------------------------------------------ utils
     def thorough(self):
@@ -150,9 +154,14 @@ class Ctx:
     def mc(self, module, cfg=None, timeout=900, env=None, extra=(), heap="8g", workers=None, expect_ok=True):
         """Exhaustive model-checking run of a Layer-I / foundation model (spec-side result).
         A failure here is a statement about the MODEL; it never yields a VIOLATION."""
+        mkey = (module, cfg, json.dumps(env, sort_keys=True, default=str), tuple(extra))
+        if mkey in self._mc_done:
+            return self._mc_done[mkey]
         rc, out = self.tlc(module, cfg, env=env, timeout=timeout, extra=extra, heap=heap,
                            workers=workers, tag="mc:" + (cfg or module))
         ok = rc == 0 and "No error has been found" in out
+        if ok:
+            self._mc_done[mkey] = (ok, out)
         if expect_ok and not ok:
             raise Inconclusive("model check %s/%s did not pass (rc=%d):\n%s" % (module, cfg, rc, tail(out, 60)))
         return ok, out
@@ -160,6 +169,8 @@ class Ctx:
     def apalache(self, module, cfg, timeout=300):
         """Discharge an inductive invariant with Apalache: base case (Init => IndInv, length 0) and step
         (IndInit /\\ Next => IndInv', length 1). Returns True iff both report NoError. Spec-side result."""
+        if ("apalache", module, cfg) in self._mc_done:
+            return True
         results = []
         for init, length in (("Init", 0), ("IndInit", 1)):
             out_dir = tempfile.mkdtemp(prefix="apa_", dir=self.scratch)
@@ -175,6 +186,8 @@ class Ctx:
             if p.returncode == 124:
                 raise Inconclusive("apalache %s timed out" % module)
         self.cov.setdefault("apalache_obligations", []).append({"module": module, "cfg": cfg, "base": results[0], "step": results[1]})
+        if all(results):
+            self._mc_done[("apalache", module, cfg)] = True
         return all(results)
 
     def validate(self, module, traces, cfg=None, timeout=900, env=None, per_proc=1, deque=False, heap="3g"):
@@ -414,6 +427,12 @@ def split_ndjson(path, parts, outprefix):
     return res
 
 
+# thorough tier: number of rounds (independent seeds) of each check body, fitted to the measured time of one round
+# (about 10-15 minutes per property on 16 cores); exhaustive model-checking runs are done once
+THOROUGH_ROUNDS = {"C01": 12, "C02": 4, "C03": 4, "C04": 5, "C05": 8, "C06": 8, "C07": 6, "C08": 12, "C09": 12, "C10": 4, "C11": 4,
+                   "C12": 2, "C13": 4, "C14": 6, "C15": 2, "C16": 4, "C17": 1, "C18": 4, "C19": 4, "C20": 10}
+
+
 def main(checks):
     import argparse
     ap = argparse.ArgumentParser()
@@ -433,8 +452,30 @@ def main(checks):
         ctx.tier = rp.get("tier", ctx.tier)
         ctx.seed = rp.get("seed", ctx.seed)
         print("replaying with tier=%s seed=%d (the check is deterministic in the seed)" % (ctx.tier, ctx.seed))
+    rounds = 1
+    if ctx.tier == "thorough":
+        rounds = int(os.environ.get("VERIF_ROUNDS", "0")) or THOROUGH_ROUNDS.get(a.prop, 1)
     try:
-        fn(ctx)
+        summed = ("traces_validated_against_impl", "evaluations")
+        for rnd in range(rounds):
+            ctx.round = rnd
+            ctx.seed = ctx.base_seed + 7919 * rnd
+            if rounds > 1:
+                ctx.log("round %d of %d (seed %d)" % (rnd + 1, rounds, ctx.seed))
+            for k in summed:
+                ctx.cov[k] = 0
+            n_ass = len(ctx.assumptions)
+            fn(ctx)
+            if rnd > 0:
+                del ctx.assumptions[n_ass:]      # the same sentences again
+            for k in summed:
+                ctx._acc[k] = ctx._acc.get(k, 0) + (ctx.cov.get(k) or 0)
+        for k in summed:
+            ctx.cov[k] = ctx._acc.get(k, 0)
+        if rounds > 1:
+            ctx.cov["rounds"] = rounds
+            ctx.cov["round_seeds"] = [ctx.base_seed + 7919 * r for r in range(rounds)]
+        ctx.seed = ctx.base_seed
         return ctx.finish()
     except Inconclusive as e:
         print("INCONCLUSIVE property=%s: %s" % (a.prop, e), flush=True)
